@@ -1,6 +1,6 @@
 (* Decoding of C18 cases and verdicts. *)
 From Coq Require Import List NArith Bool String Ascii.
-From FS Require Import Sx Model.Path Model.Stat Model.Tree Model.FollowLinks.
+From FS Require Import Sx Model.Path Model.Stat Model.Tree Model.FollowLinks Model.Pattern.
 Import ListNotations.
 Open Scope N_scope.
 Open Scope bool_scope.
@@ -38,6 +38,7 @@ Definition k_revisit : bytes := Eval compute in bs "revisit-with-new-remainder".
 Definition k_lexical : bytes := Eval compute in bs "lexical-dotdot-across-symlink".
 Definition k_wildmid : bytes := Eval compute in bs "wildcard-middle-component-not-followed".
 Definition k_linkglob : bytes := Eval compute in bs "link-target-component-read-as-pattern".
+Definition k_reinterp : bytes := Eval compute in bs "follow-path-result-reinterpreted-as-pattern".
 Definition k_term : bytes := Eval compute in bs "terminated-ok".
 Definition k_sorted : bytes := Eval compute in bs "sorted".
 Definition k_minimal : bytes := Eval compute in bs "minimal".
@@ -112,6 +113,18 @@ Definition needs (view : list node) (reqs : list bytes) : list (list bytes) :=
   flat_map (fun p => flat_map (fun r => traversed r ++ match final r with Reached q => match q with [] => [] | _ => [q] end | Failed => [] end)
                               (chroot_resolve_all go_match view p)) reqs.
 
+(* an element of the FollowLinks result that patternmatcher.New does not read as the literal path
+   it is: a leading '!' (exclusion), leading / trailing white space (TrimSpace), or a backslash
+   (escape character; a trailing one is ErrBadPattern) *)
+Definition reinterpreted (s : bytes) : bool :=
+  match s with c :: _ => N.eqb c bang | [] => false end ||
+  existsb (N.eqb 92) s || negb (bytes_eqb (trim_space s) s).
+Definition result_reinterpreted (view : list node) (reqs : list bytes) : bool :=
+  match follow_links_opt go_match view (fuel_bound view reqs) reqs with
+  | Ok (Some l) => existsb reinterpreted l
+  | _ => false
+  end.
+
 Definition run_1805 (input impl : sx) : sx :=
   match dec_case input with
   | None => v_malformed
@@ -129,12 +142,14 @@ Definition run_1805 (input impl : sx) : sx :=
           else if negb (lexical_safe view reqs) then [sig k_lexical]
           else if negb (wild_last_only reqs) then [sig k_wildmid]
           else if negb (links_literal view) then [sig k_linkglob]
+          else if result_reinterpreted view reqs then [sig k_reinterp]
           else [] in
         (* no model of the filter walk here (that is C10): the "model" column repeats impl *)
         verdict impl impl (is_nil missing) (SL (s ++ [SL (SB k_missing :: map (fun q => SB (key q)) missing)]))
       end
     | _ => (* NewFilterFS / the walk failed: a link target read as a (malformed) pattern makes the
               include list invalid *)
-      v_specfail (SL []) (SL ((if negb (links_literal view) then [sig k_linkglob] else []) ++ [flag k_walkok false]))
+      v_specfail (SL []) (SL ((if negb (links_literal view) then [sig k_linkglob]
+                               else if result_reinterpreted view reqs then [sig k_reinterp] else []) ++ [flag k_walkok false]))
     end
   end.
